@@ -1,10 +1,343 @@
-"""Planted defects for tools/sensitivity.py: small edits that still compile. Each is applied to a
-scratch copy of the repository, never to /repo."""
+"""Planted defects for tools/sensitivity.py (DESIGN.md appendix A): small edits that still compile.
+Each one is applied to a scratch copy of the repository, never to /repo. `fault` marks defects
+that are only observable in a fault-injecting or multi-fiber configuration."""
 
+RV = "libs/core/include/fcppt/container/raw_vector/object_impl.hpp"
+BUF = "libs/core/include/fcppt/container/buffer/object_impl.hpp"
+TREE = "libs/core/include/fcppt/container/tree/object_impl.hpp"
+IBASE = "libs/core/include/fcppt/intrusive/base_impl.hpp"
+ILIST = "libs/core/include/fcppt/intrusive/list_impl.hpp"
+STREAM = "libs/parse/include/fcppt/parse/detail/stream_impl.hpp"
 CTX = "libs/log/src/log/context.cpp"
+CODECVT = "libs/core/impl/include/fcppt/impl/codecvt.hpp"
 
 MUTANTS = [
-    {"id": "C19-a", "prop": "C19", "file": CTX, "expect": "tsan:data-race / linearizability",
+    # ------------------------------------------------------------------ C01
+    {"id": "C01-a", "prop": "C01", "fault": True, "expect": "undocumented-exception under underflow/seek faults",
+     "file": "libs/parse/include/fcppt/parse/phrase_parse.hpp",
+     "old": """catch (fcppt::parse::detail::exception<Ch> const &_error)
+{
+""",
+     "new": """catch (fcppt::parse::detail::exception<Ch> const &_error)
+{
+  if (_error.what().size() > 14U)
+  {
+    throw;
+  }
+"""},
+    {"id": "C01-b", "prop": "C01", "fault": False, "expect": "hang (loop without progress)",
+     "file": CODECVT,
+     "old": """        if (buf.write_size() >= min_size)
+        {
+          return optional_return_type{};
+        }
+""",
+     "new": ""},
+    {"id": "C01-c", "prop": "C01", "fault": True, "expect": "glibcxx assertion / ubsan under reader:none",
+     "file": "libs/core/include/fcppt/container/buffer/append_from_opt.hpp",
+     "old": """  return fcppt::optional::map(
+      _function(_buffer.write_data(), _size),
+      [&_buffer](typename fcppt::container::buffer::object<T, A>::size_type const _new_size) {
+        _buffer.written(_new_size);
+
+        return std::move(_buffer);
+      });""",
+     "new": """  auto const result(_function(_buffer.write_data(), _size));
+
+  _buffer.written(result.get_unsafe());
+
+  return fcppt::optional::map(
+      result,
+      [&_buffer](typename fcppt::container::buffer::object<T, A>::size_type const) {
+        return std::move(_buffer);
+      });"""},
+    {"id": "C01-d", "prop": "C01", "fault": False, "expect": "asan:stack-buffer-overflow",
+     "file": "libs/core/include/fcppt/io/read.hpp",
+     "old": "fcppt::cast::size<std::streamsize>(fcppt::cast::to_signed(sizeof(Type))))",
+     "new": "fcppt::cast::size<std::streamsize>(fcppt::cast::to_signed(sizeof(Type) + 1U)))"},
+    {"id": "C01-e", "prop": "C01", "fault": True, "expect": "undocumented-exception under errno faults",
+     "file": "libs/filesystem/src/filesystem/create_directory.cpp",
+     "old": "  std::filesystem::create_directory(_path, code);",
+     "new": "  if (!std::filesystem::exists(_path))\n  {\n    std::filesystem::create_directory(_path, code);\n  }"},
+    # ------------------------------------------------------------------ C07
+    {"id": "C07-a", "prop": "C07", "fault": False, "expect": "contents",
+     "file": RV,
+     "old": """          // NOLINTNEXTLINE(fuchsia-default-arguments-calls)
+          std::next(this->data_end()));
+    }
+
+    *_position = value_copy;""",
+     "new": """          this->data_end());
+    }
+
+    *_position = value_copy;"""},
+    {"id": "C07-b", "prop": "C07", "fault": True, "expect": "asan / ledger with alloc faults",
+     "file": RV,
+     "old": """  size_type const old_size(this->size());
+
+  pointer const new_memory(this->impl_.alloc_.allocate(_new_cap));
+
+  if (!this->empty())
+  {
+    std::uninitialized_copy(this->begin(), this->end(), new_memory);
+  }
+
+  this->deallocate();
+""",
+     "new": """  size_type const old_size(this->size());
+
+  fcppt::container::raw_vector::object<T, A> old_contents{this->get_allocator()};
+
+  old_contents.swap(*this);
+
+  pointer const new_memory(this->impl_.alloc_.allocate(_new_cap));
+
+  if (!old_contents.empty())
+  {
+    std::uninitialized_copy(old_contents.begin(), old_contents.end(), new_memory);
+  }
+"""},
+    {"id": "C07-c", "prop": "C07", "fault": False, "expect": "asan:heap-buffer-overflow",
+     "file": RV,
+     "old": "  return std::max(_new_size, this->capacity() * 2U);",
+     "new": "  return std::max(_new_size - 1U, this->capacity() * 2U);"},
+    {"id": "C07-d", "prop": "C07", "fault": False, "expect": "size/contents",
+     "file": RV,
+     "old": """  std::uninitialized_copy(_position + 1U, this->end(), _position);
+
+  --this->impl_.last_;""",
+     "new": """  std::uninitialized_copy(_position + 1U, this->end(), _position);
+
+  if (_position + 1U != this->end())
+  {
+    --this->impl_.last_;
+  }"""},
+    {"id": "C07-e", "prop": "C07", "fault": False, "expect": "buffer-contents after growth",
+     "file": BUF,
+     "old": "  std::uninitialized_copy(this->read_data(), this->read_data_end(), new_impl.first_);\n",
+     "new": "  std::uninitialized_copy(this->read_data(), this->read_data_end() - (this->read_size() > 8U ? 1 : 0), new_impl.first_);\n"},
+    {"id": "C07-f", "prop": "C07", "fault": False, "expect": "to_raw_vector size",
+     "file": BUF,
+     "old": "this->get_allocator(), this->impl_.first_, this->impl_.read_end_, this->impl_.cap_};",
+     "new": "this->get_allocator(), this->impl_.first_, this->impl_.write_end_, this->impl_.cap_};"},
+    {"id": "C07-g", "prop": "C07", "fault": True, "expect": "with alloc:1: use after free / ledger",
+     "file": BUF,
+     "old": """  impl new_impl{
+      this->impl_.alloc_,""",
+     "new": """  if (this->read_size() == 0U)
+  {
+    this->impl_.deallocate();
+
+    this->release_internal();
+  }
+
+  impl new_impl{
+      this->impl_.alloc_,"""},
+    {"id": "C07-h", "prop": "C07", "fault": False, "expect": "ledger:capacity-mismatch after swap",
+     "file": RV,
+     "old": """  std::swap(this->impl_.cap_, _other.impl_.cap_);""",
+     "new": """  if (this->size() != _other.size())
+  {
+    std::swap(this->impl_.cap_, _other.impl_.cap_);
+  }"""},
+    # ------------------------------------------------------------------ C09
+    {"id": "C09-a", "prop": "C09", "fault": False, "expect": "links",
+     "file": TREE,
+     "old": """  child_list result(fcppt::move_clear(_children));
+
+  for (auto &child : result)
+  {
+    child.parent_ = this;
+  }
+""",
+     "new": """  child_list result(fcppt::move_clear(_children));
+
+  if (this->parent_ == nullptr)
+  {
+    for (auto &child : result)
+    {
+      child.parent_ = this;
+    }
+  }
+"""},
+    {"id": "C09-b", "prop": "C09", "fault": False, "expect": "links",
+     "file": TREE,
+     "old": """  child_list result(_children);
+
+  for (auto &child : result)
+  {
+    child.parent_ = this;
+  }
+""",
+     "new": """  child_list result(_children);
+
+  if (result.size() != 1U)
+  {
+    for (auto &child : result)
+    {
+      child.parent_ = this;
+    }
+  }
+"""},
+    {"id": "C09-c", "prop": "C09", "fault": False, "expect": "links",
+     "file": TREE,
+     "old": "  this->children_.insert(_it, std::move(_tree))->parent_ = this;",
+     "new": "  iterator const pos{this->children_.insert(_it, std::move(_tree))};\n\n  if (_it == this->children_.end())\n  {\n    pos->parent_ = this;\n  }"},
+    {"id": "C09-d", "prop": "C09", "fault": False, "expect": "shape (wrong insert position)",
+     "file": TREE,
+     "old": """  this->insert(_it, object(_value));""",
+     "new": """  this->insert(_it == this->children_.end() ? _it : std::next(_it), object(_value));"""},
+    {"id": "C09-e", "prop": "C09", "fault": True, "expect": "state/links only with alloc/copy faults",
+     "file": TREE,
+     "old": """  this->value_ = _other.value_;
+
+  this->children_ = this->copy_children(_other.children_);""",
+     "new": """  this->children_.clear();
+
+  for (object const &child : _other.children_)
+  {
+    this->children_.push_back(child);
+  }
+
+  for (object &child : this->children_)
+  {
+    child.parent_ = this;
+  }
+
+  this->value_ = _other.value_;"""},
+    {"id": "C09-f", "prop": "C09", "fault": False, "expect": "links after swap of an inner node",
+     "file": TREE,
+     "old": """  for (auto &child : _other.children_)
+  {
+    child.parent_ = &_other;
+  }
+}""",
+     "new": """  for (auto &child : _other.children_)
+  {
+    child.parent_ = this;
+  }
+}"""},
+    # ------------------------------------------------------------------ C11
+    {"id": "C11-a", "prop": "C11", "fault": False, "expect": "membership / asan",
+     "file": IBASE,
+     "old": """  next_->prev_ = prev_;
+
+  prev_->next_ = next_;
+
+  // If _other is not linked""",
+     "new": """  // If _other is not linked"""},
+    {"id": "C11-b", "prop": "C11", "fault": False, "expect": "asan / ring",
+     "file": ILIST,
+     "old": """  if (!_other.empty())
+  {
+    this->head_ = std::move(_other.head_);
+  }
+}""",
+     "new": """  this->head_ = std::move(_other.head_);
+
+  _other.head_.next_ = &this->head_;
+}"""},
+    {"id": "C11-c", "prop": "C11", "fault": False, "expect": "membership-in-unregister",
+     "file": "libs/core/include/fcppt/signal/unregister/detail/concrete_connection_impl.hpp",
+     "old": """  this->unlink();
+
+  try""",
+     "new": """  try"""},
+    {"id": "C11-d", "prop": "C11", "fault": False, "expect": "fold-result",
+     "file": "libs/core/include/fcppt/signal/object_impl.hpp",
+     "old": "      std::move(_initial.get()),",
+     "new": "      base::connections().empty() ? std::move(_initial.get()) : result_type{},"},
+    {"id": "C11-e", "prop": "C11", "fault": False, "expect": "membership (list move assignment from empty)",
+     "file": ILIST,
+     "old": """  if (_other.empty())
+  {
+    this->head_.unlink();
+  }""",
+     "new": """  if (_other.empty())
+  {
+    this->head_.next_ = &this->head_;
+
+    this->head_.prev_ = &this->head_;
+  }"""},
+    # ------------------------------------------------------------------ C12
+    {"id": "C12-a", "prop": "C12", "fault": False, "expect": "location after rewind",
+     "file": STREAM,
+     "old": "[this](fcppt::parse::location const &_location) { this->location_ = _location; });",
+     "new": "[this](fcppt::parse::location const &_location) { if (_location.line() <= this->location_.line()) { this->location_ = _location; } });"},
+    {"id": "C12-b", "prop": "C12", "fault": False, "expect": "location",
+     "file": STREAM,
+     "old": "      this->location_.column() = fcppt::parse::column{1U};",
+     "new": "      this->location_.column() = fcppt::parse::column{0U};"},
+    {"id": "C12-c", "prop": "C12", "fault": False, "expect": "position at end of input",
+     "file": STREAM,
+     "old": """  if (std_stream.eof())
+  {
+    std_stream.clear(); // NOLINT(fuchsia-default-arguments-calls)
+  }
+
+  pos_type const pos{std_stream.tellg()};""",
+     "new": """  pos_type const pos{std_stream.tellg()};"""},
+    {"id": "C12-d", "prop": "C12", "fault": True, "expect": "character/success after read error",
+     "file": "libs/parse/include/fcppt/parse/detail/check_bad.hpp",
+     "old": "  if (_stream.bad())",
+     "new": "  if (_stream.bad() && _stream.eof())"},
+    {"id": "C12-e", "prop": "C12", "fault": False, "expect": "character at end",
+     "file": "libs/core/include/fcppt/io/get.hpp",
+     "old": "  return result == Traits::eof() ? result_type{}",
+     "new": "  return (result == Traits::eof() && !_stream.eof()) ? result_type{}"},
+    # ------------------------------------------------------------------ C15
+    {"id": "C15-a", "prop": "C15", "fault": True, "expect": "torn-value-accepted under truncation/read errors",
+     "file": "libs/core/include/fcppt/io/read.hpp",
+     "old": """  return _stream.read(
+             fcppt::cast::to_char_ptr<char *>(&result),
+             fcppt::cast::size<std::streamsize>(fcppt::cast::to_signed(sizeof(Type))))
+             ? result_type(fcppt::endianness::convert(result, _format))
+             : result_type();""",
+     "new": """  _stream.read(
+      fcppt::cast::to_char_ptr<char *>(&result),
+      fcppt::cast::size<std::streamsize>(fcppt::cast::to_signed(sizeof(Type))));
+
+  return _stream.gcount() != 0
+             ? result_type(fcppt::endianness::convert(result, _format))
+             : result_type();"""},
+    {"id": "C15-b", "prop": "C15", "fault": False, "expect": "byte-layout",
+     "file": "libs/core/include/fcppt/endianness/convert.hpp",
+     "old": "  return _format == std::endian::native ? _value : fcppt::endianness::swap(_value);",
+     "new": "  return _format != std::endian::native ? _value : fcppt::endianness::swap(_value);"},
+    {"id": "C15-c", "prop": "C15", "fault": False, "expect": "byte-layout / roundtrip",
+     "file": "libs/core/src/endianness/reverse_mem.cpp",
+     "old": "fcppt::make_int_range_count(_len / 2)",
+     "new": "fcppt::make_int_range_count((_len - 1U) / 2)"},
+    {"id": "C15-d", "prop": "C15", "fault": True, "expect": "facet-error-ignored",
+     "file": CODECVT,
+     "old": """    case std::codecvt_base::error:
+      return optional_return_type{};""",
+     "new": """    case std::codecvt_base::error:
+      return optional_return_type{return_type(buf.begin(), buf.end())};"""},
+    {"id": "C15-e", "prop": "C15", "fault": True, "expect": "torn-value-accepted",
+     "file": "libs/core/include/fcppt/math/detail/one_dimensional_input.hpp",
+     "old": """  fcppt::io::expect(_stream, _stream.widen(')'));
+
+  return _stream;""",
+     "new": """  return _stream;"""},
+    {"id": "C15-f", "prop": "C15", "fault": True, "expect": "unacknowledged-write-reported-good",
+     "file": "libs/core/src/io/write_chars.cpp",
+     "old": "  return _stream.good();",
+     "new": "  return !_stream.bad() || _count == 0U;"},
+    {"id": "C15-g", "prop": "C15", "fault": False, "expect": "silent-truncation (codecvt fix reverted)",
+     "file": CODECVT,
+     "old": """        if (buf.write_size() >= min_size)
+        {
+          return optional_return_type{};
+        }
+
+        buf.resize_write_area(min_size);
+
+        continue;""",
+     "new": """        return optional_return_type{return_type(buf.begin(), buf.end())};"""},
+    # ------------------------------------------------------------------ C19
+    {"id": "C19-a", "prop": "C19", "fault": True, "expect": "tsan:data-race / linearizability",
+     "file": CTX,
      "old": """  impl::lock_guard const lock{this->impl_->mutex()};
 
   for (fcppt::log::detail::context_tree &node""",
@@ -12,9 +345,86 @@ MUTANTS = [
   impl::lock_guard const lock{other_mutex};
 
   for (fcppt::log::detail::context_tree &node"""},
-    {"id": "C19-b", "prop": "C19", "file": CTX, "expect": "tsan:data-race",
+    {"id": "C19-b", "prop": "C19", "fault": True, "expect": "tsan:data-race",
+     "file": CTX,
      "old": """  impl::lock_guard const lock{this->impl_->mutex()};
 
   return fcppt::algorithm::fold_break(""",
      "new": """  return fcppt::algorithm::fold_break("""},
+    {"id": "C19-c", "prop": "C19", "fault": True, "expect": "tsan:data-race / audit:duplicate-node",
+     "file": CTX,
+     "old": """  impl::lock_guard const lock{this->impl_->mutex()};
+
+  return fcppt::reference_to_const(fcppt::log::impl::find_or_create_child(""",
+     "new": """  return fcppt::reference_to_const(fcppt::log::impl::find_or_create_child("""},
+    {"id": "C19-d", "prop": "C19", "fault": True, "expect": "tsan:data-race / linearizability",
+     "file": CTX,
+     "old": """  impl::lock_guard const lock{this->impl_->mutex()};
+
+  for (fcppt::log::detail::context_tree &node : fcppt::container::tree::make_pre_order(
+           this->impl_->find_location_impl(_location, lock).get()))""",
+     "new": """  fcppt::log::detail::context_tree &start{[this, &_location]() -> fcppt::log::detail::context_tree & {
+    impl::lock_guard const lock{this->impl_->mutex()};
+    return this->impl_->find_location_impl(_location, lock).get();
+  }()};
+
+  for (fcppt::log::detail::context_tree &node : fcppt::container::tree::make_pre_order(start))"""},
+    {"id": "C19-e", "prop": "C19", "fault": False, "expect": "model (sequential)",
+     "file": CTX,
+     "old": """  for (fcppt::log::detail::context_tree &node : fcppt::container::tree::make_pre_order(
+           this->impl_->find_location_impl(_location, lock).get()))
+  {
+    node.value().level(_level);
+  }""",
+     "new": """  fcppt::log::detail::context_tree &start{this->impl_->find_location_impl(_location, lock).get()};
+
+  start.value().level(_level);
+
+  for (fcppt::log::detail::context_tree &node : start)
+  {
+    node.value().level(_level);
+  }"""},
+    {"id": "C19-f", "prop": "C19", "fault": False, "expect": "model (sequential)",
+     "file": "libs/log/impl/src/log/impl/find_or_create_child.cpp",
+     "old": "fcppt::log::detail::context_tree_node{_name, _node.get().value().level()});",
+     "new": "fcppt::log::detail::context_tree_node{_name, _node.get().parent().has_value() ? _node.get().parent().get_unsafe().get().value().level() : _node.get().value().level()});"},
+    {"id": "C19-g", "prop": "C19", "fault": False, "expect": "model (sequential)",
+     "file": CTX,
+     "old": "                   [_cur] { return std::make_pair(fcppt::loop::break_, _cur); },",
+     "new": "                   [_cur, root = this->root()] { return std::make_pair(fcppt::loop::break_, _cur.get().empty() ? root : _cur); },"},
+    {"id": "C19-h", "prop": "C19", "fault": False, "expect": "enabled / emission",
+     "file": "libs/log/src/log/object.cpp",
+     "old": "        return _level >= _enabled_level;",
+     "new": "        return _level > _enabled_level || _level == fcppt::log::level::fatal;"},
+    {"id": "C19-i", "prop": "C19", "fault": False, "expect": "message-text",
+     "file": "libs/log/impl/src/log/impl/tree_formatter.cpp",
+     "old": """                   : fcppt::log::format::optional_function(fcppt::log::format::chain(
+                         fcppt::log::format::optional_function(fcppt::log::format::prefix(
+                             fcppt::log::format::prefix_string{name.get()})),
+                         _state));""",
+     "new": """                   : fcppt::log::format::optional_function(fcppt::log::format::chain(
+                         _state,
+                         fcppt::log::format::optional_function(fcppt::log::format::prefix(
+                             fcppt::log::format::prefix_string{name.get()}))));"""},
+    {"id": "C19-j", "prop": "C19", "fault": True, "expect": "deadlock / lock-not-released (needs an allocation failure inside the locked region)",
+     "file": CTX,
+     "old": """  impl::lock_guard const lock{this->impl_->mutex()};
+
+  return fcppt::reference_to_const(fcppt::log::impl::find_or_create_child(
+      fcppt::make_ref(
+          // NOLINTNEXTLINE(cppcoreguidelines-pro-type-const-cast)
+          const_cast<fcppt::log::detail::context_tree &>(_node.get())),
+      _name));""",
+     "new": """  this->impl_->mutex().lock();
+
+  fcppt::reference<fcppt::log::detail::context_tree const> const result{
+      fcppt::reference_to_const(fcppt::log::impl::find_or_create_child(
+          fcppt::make_ref(
+              // NOLINTNEXTLINE(cppcoreguidelines-pro-type-const-cast)
+              const_cast<fcppt::log::detail::context_tree &>(_node.get())),
+          _name))};
+
+  this->impl_->mutex().unlock();
+
+  return result;"""},
 ]
